@@ -189,6 +189,69 @@ pub fn converge_cases(ctx: &mut Ctx) -> Vec<Case> {
     out
 }
 
+/// Both layers: R incompressible bytes followed by constant data make the first compressed block
+/// about R + c bytes long; R is tuned until the end of that block lies at `residue` bytes from an
+/// encryption chunk edge (the compressed stream is what the encryption layer cuts into chunks)
+pub fn comp_block_residue_case(ctx: &mut Ctx, residue: i64, level: u32, standalone: bool) -> Option<Case> {
+    let k = ctx.k;
+    let seed = ctx.seed;
+    // f0: r incompressible bytes; f1: t bytes of text (varies the bit length of what follows);
+    // f2: constant data running over the end of the first compression block
+    let mk = |layers: u8, r: i64, t: i64| Program {
+        layers,
+        level,
+        nrecip: 2,
+        files: vec![
+            FileSpec { name: NameKind::Plain(0), data: DataKind::Random },
+            FileSpec { name: NameKind::Plain(1), data: DataKind::Text },
+            FileSpec { name: NameKind::Plain(2), data: DataKind::Constant(0x3c) },
+        ],
+        ops: vec![Op::Add(0, Sz::lit(r)), Op::Add(1, Sz::lit(t)), Op::Add(2, Sz::new(1, 2, 777)), Op::Finalize],
+        seed: seed ^ 0xC0B1,
+    };
+    // compression-only twin: (size of the first compressed block, whether the decoder yields
+    // the whole block without being given its last byte)
+    let probe = |r: i64, t: i64| -> Option<(i64, bool)> {
+        let twin = drv::build(&mk(2, r, t), &k, Sched::All).ok()?;
+        let d = model::fmt::decode_archive(&k, &twin.raw, &[]).ok()?;
+        let s0 = i64::from(*d.comp.as_ref()?.sizes.first()?);
+        let block = twin.raw.get(d.header.len..d.header.len + s0 as usize - 1)?;
+        let unneeded = standalone && model::fmt::brotli_decompress_prefix(block).len() as u64 == k.block;
+        Some((s0, unneeded))
+    };
+    let want = residue.rem_euclid(k.chunk as i64);
+    // the brotli decoder may produce the whole block before it asks for the last compressed
+    // byte (which then only holds the end-of-stream bits), and so leave it unread in the layer
+    // below: `standalone` asks for that shape of block end, found by varying t
+    for t in 1..=64_i64 {
+        let t = t * 29;
+        let mut r = 5 * k.chunk as i64 + 4321;
+        for _ in 0..6 {
+            let (s0, last) = probe(r, t)?;
+            if standalone && !last {
+                break;
+            }
+            let have = s0.rem_euclid(k.chunk as i64);
+            if have == want {
+                ctx.count("musthit:compressed_block_end_next_to_chunk_edge");
+                if standalone {
+                    ctx.count("musthit:compressed_block_ends_with_standalone_final_byte");
+                }
+                return Some(Case { prog: mk(3, r, t), reader: 1, decoys: 1, rseed: 4 });
+            }
+            r += (want - have).rem_euclid(k.chunk as i64);
+            if r > 3 * k.block as i64 / 4 {
+                r -= k.chunk as i64 * 8;
+            }
+        }
+        if !standalone {
+            break;
+        }
+    }
+    ctx.count("comp_block_residue_not_reached");
+    None
+}
+
 pub fn run_case(ctx: &mut Ctx, c: &Case) {
     let k = ctx.k;
     let p = &c.prog;
@@ -207,7 +270,16 @@ pub fn run_case(ctx: &mut Ctx, c: &Case) {
         ctx.count("musthit:encrypt_plaintext_multiple_of_chunk");
     }
     let res = guarded(|| -> Result<(), (String, String)> {
-        let b = drv::build(p, &k, Sched::All).map_err(|e| ("valid-call-refused".to_string(), e))?;
+        // the data of each piece comes from a source that may return fewer bytes than asked
+        let total = p.total_bytes(&k);
+        let src_sched = match c.rseed % 5 {
+            0 if total <= 300_000 => Sched::Max(1),
+            1 if total <= 4_000_000 => Sched::Cycle(7),
+            2 => Sched::Rand(5000, c.rseed),
+            3 => Sched::Max(4095),
+            _ => Sched::All,
+        };
+        let b = drv::build_with_sources(p, &k, Sched::All, src_sched).map_err(|e| ("valid-call-refused".to_string(), e))?;
         // candidate key list: decoys first, then the reading recipient's key
         let mut keys: Vec<[u8; 32]> = (0..c.decoys).map(|i| secret_key(p.seed ^ 0xBAD, 100 + i)).collect();
         if p.layers & 1 != 0 {
@@ -248,6 +320,22 @@ pub fn run(ctx: &mut Ctx) {
         }
         if ctx.journal(&json!({"prop": "C01", "scenario": c})) {
             run_case(ctx, c);
+        }
+    }
+    if ctx.k.is_prod() {
+        // one residue per shard: -2..=3 bytes around a chunk edge, two levels in thorough
+        let residues: [i64; 6] = [-2, -1, 0, 1, 2, 3];
+        for (i, r) in residues.iter().enumerate() {
+            for (j, (level, standalone)) in [(1u32, true), (1, false), (5, true), (5, false)].iter().enumerate() {
+                if (j >= 2 && ctx.quick()) || (i + 6 * j) % ctx.nshards != ctx.shard {
+                    continue;
+                }
+                if let Some(c) = comp_block_residue_case(ctx, *r, *level, *standalone) {
+                    if ctx.journal(&json!({"prop": "C01", "scenario": {"case": c, "k": ctx.k.name()}})) {
+                        run_case(ctx, &c);
+                    }
+                }
+            }
         }
     }
     if ctx.k.is_prod() && ctx.shard == ctx.nshards - 1 {
